@@ -65,7 +65,7 @@ func genSet(r *rand.Rand, k int) *eset {
 	offKind := offKinds[r.Intn(len(offKinds))]
 	seen := map[string]bool{}
 	add := func(h []byte) {
-		if seen[string(h)] {
+		if seen[string(h)] || bytes.Equal(h, make([]byte, len(h))) { // the all-zero id is go-git's "no hash" marker, never a real object
 			return
 		}
 		seen[string(h)] = true
@@ -184,6 +184,14 @@ func genSet(r *rand.Rand, k int) *eset {
 	}
 	for i := range s.entries {
 		s.entries[i].off = pick(i)
+	}
+	if len(s.entries) > 0 {
+		// a real pack always has its first object at offset 12: at least one offset is 32-bit. git's size formula
+		// for idx v2 (at most nr-1 64-bit entries) relies on it, and so does go-git's decoder.
+		v := r.Intn(len(s.entries))
+		if !used[12] {
+			s.entries[v].off = 12
+		}
 	}
 	s.pack = make([]byte, s.hsz)
 	r.Read(s.pack)
